@@ -1204,6 +1204,10 @@ theorem c06_response_exact (r : ProtoRow) (hr : r ∈ protoTable) (hdev : (r.1.1
     simp only [hnotbig, hnotsmall, if_false, hd0, h1, hq, hqa, hqv, hl, hc.2.2, Bool.false_eq_true]
     exact ⟨_, by rw [hfr], rfl, hqa, rfl, by simp [hlen4], hex.1⟩
 
+/-- the names the dissector reports for API keys −1 … 51 (regenerated from `ApiKey.String`) are
+    the protocol's -/
+theorem c06_api_names : Generated.Kafka.apiNameTable.all (fun r => r.2 == specApiName r.1) = true := by decide +kernel
+
 /-! ### non-vacuity: concrete rows, concrete conforming values -/
 
 /-- Metadata v5 response: brokers, cluster id (nullable), topics with partitions and their
